@@ -215,7 +215,7 @@ func parseAddress(fcgiAddress string) (string, string) {
 		return "tcp", fcgiAddress[len("fastcgi://"):]
 	}
 	// check if unix socket
-	if trim := strings.HasPrefix(fcgiAddress, "unix"); strings.HasPrefix(fcgiAddress, "/") || trim {
+	if trim := strings.HasPrefix(fcgiAddress, "unix:"); strings.HasPrefix(fcgiAddress, "/") || trim {
 		if trim {
 			return "unix", fcgiAddress[len("unix:"):]
 		}
